@@ -82,11 +82,11 @@ func (r *round1S) Finalize(out chan<- *round.Message) (round.Session, error) {
 	alpha0 := kAInv
 	alpha0.Add(phi)
 
-	tag0 := &hash.BytesWithDomain{TheDomain: "Multiply0", Bytes: nil}
+	tag0 := &hash.BytesWithDomain{TheDomain: "Multiply0", Bytes: []byte{}}
 	multiply0 := ot.NewMultiplySender(r.Hash().Fork(tag0), r.config.Setup, alpha0)
-	tag1 := &hash.BytesWithDomain{TheDomain: "Multiply1", Bytes: nil}
+	tag1 := &hash.BytesWithDomain{TheDomain: "Multiply1", Bytes: []byte{}}
 	multiply1 := ot.NewMultiplySender(r.Hash().Fork(tag1), r.config.Setup, alpha1)
-	tag2 := &hash.BytesWithDomain{TheDomain: "Multiply1", Bytes: nil}
+	tag2 := &hash.BytesWithDomain{TheDomain: "Multiply2", Bytes: []byte{}}
 	multiply2 := ot.NewMultiplySender(r.Hash().Fork(tag2), r.config.Setup, alpha2)
 
 	msg0, tA1, err := multiply0.Round1(r.mulMsg0)
